@@ -339,12 +339,14 @@ func (s *Solver) checkInc(extras []*Term, want []*Term, timeoutMs int) (Result, 
 	case resp == "unsat":
 		res = Unsat
 	case strings.Contains(resp, "(error"):
-		s.NErrors++
+		if !strings.Contains(resp, "canceled") {
+			s.NErrors++
+		}
 		s.LastError = resp
-		res = Unknown
+		s.NUnknown++
 		// the solver state may be inconsistent: restart
 		s.restart()
-		return res, nil
+		return Unknown, nil
 	default:
 		res = Unknown
 	}
